@@ -159,11 +159,42 @@ def body_exponent(case):
     if not np.isfinite(val.imag) or abs(val.imag - ref.imag) > tol:
         out.append(Violation(f"C10/exponent-vs-triplet/{br}/imaginary-part",
                              f"levy_exponent={val!r}, Levy-Khintchine integral of the declared triplet={ref!r}; {detail}"))
-    if u == 0 and abs(val) > 1e-9:  # closed forms cancel large terms at u = 0
+    if u == 0 and abs(val) > 1e-9 + 10 * tol:  # closed forms cancel large terms at u = 0 (tol carries their size)
         out.append(Violation(f"C10/exponent-vs-triplet/{br}/nonzero-at-zero", f"{val!r}"))
     cf = complex(model.characteristic_function(0.7, u))
     if abs(cf - np.exp(0.7 * val)) > 1e-12 * max(1.0, abs(cf)):
         out.append(Violation(f"C10/characteristic-function-vs-exponent/{br}", f"{cf!r} vs exp(t psi)={np.exp(0.7 * val)!r}"))
+    if spec["family"] != "bs":
+        # the exponential model carries the same triplet: the exponent it states itself is that of the triplet too
+        emodel = build_model(spec, force_exp=True)
+        ea0, esig, erep = float(emodel.levy_triplet.a), float(emodel.levy_triplet.sigma), emodel.levy_triplet.representation.name
+        eval_ = complex(emodel.levy_exponent(u))
+        if (erep, esig) == (rep, sigma):
+            eref = ref + 1j * u * (ea0 - a0)
+            if not np.isfinite(abs(eval_)) or abs(eval_ - eref) > 2 * tol:
+                out.append(Violation(f"C10/exponent-vs-triplet/{br}/stated-by-the-exponential-model",
+                                     f"levy_exponent={eval_!r}, Levy-Khintchine integral of its triplet={eref!r}; {detail}"))
+        ecf = complex(emodel.characteristic_function(0.7, u))
+        if abs(ecf - np.exp(0.7 * eval_)) > 1e-12 * max(1.0, abs(ecf)):
+            out.append(Violation(f"C10/characteristic-function-vs-exponent/{br}/exponential-model", f"{ecf!r} vs {np.exp(0.7 * eval_)!r}"))
+        # moments of S_t/S_0 asked for in one call (a list of orders) and one by one, where the moments exist
+        gm_, gp_ = _decay(spec)
+        if gp_ > 4.5:
+            t_ = 0.7
+            one_by_one = [float(emodel.std_moment(k, t_)) for k in (1, 2, 3, 4)]
+            m1, m2, m3, m4 = one_by_one
+            var = m2 - m1 ** 2
+            if var > 1e-12 * m1 ** 2 and all(np.isfinite(one_by_one)) and m4 < 1e12:
+                sd = math.sqrt(var)
+                refs = {"stddev": sd, "skewness": (m3 - 3 * m1 * var - m1 ** 3) / sd ** 3,
+                        "kurtosis": (m4 - 4 * m1 * m3 + 6 * m1 ** 2 * m2 - 3 * m1 ** 4) / sd ** 4}
+                # (central moments from raw ones cancel: round-off of a few hundred ulps of the raw moment over sd^k)
+                cancel = {"stddev": m2 / sd ** 2 * sd, "skewness": m3 / sd ** 3, "kurtosis": m4 / sd ** 4}
+                for name, r_ in refs.items():
+                    got_ = float(getattr(emodel, name)(t_))
+                    if sd >= 1e-12 and (not np.isfinite(got_) or abs(got_ - r_) > 1e-8 * (1 + abs(r_)) + 1e-12 * cancel[name]):
+                        out.append(Violation(f"C10/moments-of-the-exponential-model/{name}",
+                                             f"{name}({t_}) = {got_!r}; from the moments asked one by one {r_!r} ({one_by_one}); {detail}"))
     return out
 
 
